@@ -16,7 +16,6 @@ func init() { factFns["C20"] = factsC20 }
 
 const c20file = "type/conversion/conversion.go"
 
-
 // kindSwitch renders the clauses of the first `switch <tag>` statement found at the top level of
 // the function body: (case kinds without the reflect. prefix, callees in the clause body).
 func kindSwitch(recv, fn, tag string) string {
